@@ -3,10 +3,51 @@
    [ieee_result md v pref zs d fl] (theories/Base.v) is the conjunction of the IEEE 754-2008 clauses: value = Flocq's
    round radix10 (FLT_exp (-6176) 34) of the exact real v; overflow result by mode; sign; preferred exponent when exact,
    least exponent when inexact; inexact / underflow (tininess before rounding, only when inexact) / overflow flags.
-   [finite_result md v pref zs l]: the accepted-outcome list l of the model is the single canonical encoding of such a datum. *)
+   [finite_result md v pref zs l]: the accepted-outcome list l of the model is the single canonical encoding of such a datum.
+
+   How the theorems cover the statement (properties.jsonl), sentence by sentence.
+   * "For any operands (every 128-bit pattern) and each of the five rounding modes, addition, subtraction, multiplication,
+     division and square root return, bit for bit, the IEEE 754-2008 decimal128 result":
+     what the correspondence run executes under the names add, sub, mul, div, sqrt is [expected OAdd md [x; y]] etc.;
+     [C01_dispatch] says these are the lists m_add md x y, ... of accepted (bits, raised flags) pairs that the theorems
+     below talk about. Finite operands: [C01_add], [C01_sub], [C01_mul], [C01_div], [C01_sqrt] (all md, all patterns,
+     non-canonical ones included: [decode] maps them to the zero they denote). Infinite operands, zero divisors, invalid
+     operations: [C01_add_specials], [C01_sub_is_add_neg], [C01_mul_specials], [C01_div_specials], [C01_sqrt_specials].
+     NaN operands: [C01_nan_operands] (the common NaN rule; its content is C12).
+   * "the exact mathematical value rounded once in the requested direction": the first clause of [ieee_result] with
+     v = x + y, x - y, x * y, x / y, sqrt x as real numbers (Flocq's [round] of v itself: one rounding);
+     [C01_round_pack_correct] is the rounding core for every real, every mode, every located triple.
+   * "encoded with the preferred quantum exponent (exact results) or the least possible exponent (inexact results)":
+     the [pref] argument of [finite_result]: min(qx, qy) for add/sub, qx + qy for mul, qx - qy for div, floor(qx / 2) for
+     sqrt, and the exponent clauses of [ieee_result]; the list holds ONE pattern, the canonical encoding.
+   * "the standard's sign-of-zero ... rules": the [zs] argument ([zs_add md sx sy]: equal signs keep it, otherwise +0,
+     -0 under roundTowardNegative; xor of the signs for mul/div; sqrt(-0) = -0 in [C01_sqrt_specials]).
+   * "overflow (Inf or largest finite by mode), gradual-underflow and exponent-clamping rules": clauses of [ieee_result]
+     (theories/Base.v; SpecProofs.v shows they determine the datum); witnesses [C01_ex_overflow], [C01_ex_underflow],
+     [C01_ex_clamp] below.
+   * "The status bits newly raised are exactly inexact / overflow / underflow (tininess before rounding, only when
+     inexact) / division-by-zero / invalid as the standard prescribes": the flag component of each outcome: [flbits fl]
+     with the flag clauses of [ieee_result] (nothing else is set: [flbits] has only these three bits); F_DBZ exactly for
+     finite non-zero / zero ([C01_div_specials]); F_INV exactly in [invalid_out] (Inf - Inf, 0 * Inf, 0/0, Inf/Inf,
+     sqrt of a negative) and for signaling NaN operands (C12). That bits already set on entry stay set is C14.
+   * "and the operator forms (+ - * / and their assign variants, Sum, Product) equal the method forms under
+     round-half-even": [C01_operators_are_RNE] (with [C01_operators_explicit], [C01_operators_mode_independent],
+     [C01_opneg]): the expectation of the operator form "op+", "op-", "op*", "op/" (five observed forms: a+b, &a+&b,
+     a mixed form, a+=b, a+=&b) is the outcome list of the METHOD form at RNE with every value repeated five times and the
+     flag component 0 - the operators have no status word - whatever mode word accompanies the case.
+     [C01_sum_spec] / [C01_product_spec]: the values accepted for iter().sum() / iter().product() (over values and over
+     references: two copies) are exactly those reachable by folding the RNE method form over the list from +0E+0 / +1E+0,
+     left to right ([fold_rel], [C01_fold_rel_unfold]); at each step any accepted value of the step may be taken - only
+     NaN propagation with two NaNs offers a choice ([C01_sum_product_single]: no NaN element -> one accepted value).
+     [C01_sum_product_small]: Sum [] = +0E+0, Product [] = +1E+0, Sum [x] = 0 + x, Product [x] = 1 * x
+     (so Sum [-0] = +0: [C01_ex_sum_neg_zero]).
+   Not covered here: the Rust code itself (correspondence run); the content of the NaN rule (C12); the status word on
+   entry (C14); "tininess after rounding" does not exist for decimal. The remainder operator % is judged by the same
+   OOpArith clause against [rem_dec] (C13's subject), not mentioned in C01's statement.
+   All theorems that do not mention real numbers are axiom-free. *)
 From Coq Require Import ZArith Reals Bool List.
 From Flocq Require Import Core.Core Calc.Bracket.
-From DV Require Import Base RoundProofs Bid BidProofs Arith ArithProofs OpsArith OpsArithProofs.
+From DV Require Import Base RoundProofs Bid BidProofs Arith ArithProofs OpsArith OpsArithProofs OpsMisc Judge Status DispatchProofs.
 Import ListNotations.
 Open Scope Z_scope.
 
@@ -99,8 +140,154 @@ Theorem C01_nan_operands : forall md x y z,
 Proof. exact arith_nan_operands. Qed.
 Print Assumptions C01_nan_operands.
 
+(* ---------- dispatch: what is executed under the names add, sub, mul, div, sqrt ---------- *)
+Theorem C01_dispatch : forall md x y,
+  expected OAdd md [x; y] = Exact (m_add md x y) /\
+  expected OSub md [x; y] = Exact (m_sub md x y) /\
+  expected OMul md [x; y] = Exact (m_mul md x y) /\
+  expected ODiv md [x; y] = Exact (m_div md x y) /\
+  expected OSqrt md [x] = Exact (m_sqrt md x).
+Proof. exact dispatch_arith. Qed.
+Print Assumptions C01_dispatch.
+
+(* ---------- operator forms ---------- *)
+(* [five oc] = (the value list of oc repeated five times, 0);  [binary_arith o]: o is OAdd, OSub, OMul or ODiv.
+   l is the method form's list of accepted outcomes under round-half-even; md is whatever mode word the case carries. *)
+Theorem C01_operators_are_RNE : forall o md x y l, binary_arith o -> expected o RNE [x; y] = Exact l ->
+  expected (OOpArith o) md [x; y] = Exact (map five l) /\
+  (forall outs fl, acc (expected (OOpArith o) md [x; y]) outs fl = 1 <->
+                   fl = 0 /\ exists v f, In ([v], f) l /\ outs = [v; v; v; v; v]).
+Proof. exact operators_are_RNE. Qed.
+Print Assumptions C01_operators_are_RNE.
+
+Theorem C01_operators_explicit : forall md x y,
+  expected (OOpArith OAdd) md [x; y] = Exact (map five (m_add RNE x y)) /\
+  expected (OOpArith OSub) md [x; y] = Exact (map five (m_sub RNE x y)) /\
+  expected (OOpArith OMul) md [x; y] = Exact (map five (m_mul RNE x y)) /\
+  expected (OOpArith ODiv) md [x; y] = Exact (map five (m_div RNE x y)).
+Proof. exact operators_explicit. Qed.
+Print Assumptions C01_operators_explicit.
+
+Theorem C01_operators_mode_independent : forall o md md' x y,
+  expected (OOpArith o) md [x; y] = expected (OOpArith o) md' [x; y].
+Proof. exact operators_mode_independent. Qed.
+Print Assumptions C01_operators_mode_independent.
+
+Theorem C01_opneg : forall md x,
+  expected OOpNeg md [x] = Exact (map (fun oc => (concat (repeat (fst oc) 2), 0)) (m_neg x)).
+Proof. exact opneg_spec. Qed.
+Print Assumptions C01_opneg.
+
+(* ---------- Sum and Product ---------- *)
+(* [fold_rel o a l v] (theories/DispatchProofs.v): v is reachable from the accumulator a by folding o (method form, RNE) over
+   l from the left, taking at each step any accepted value; unfolded for + and * by the next theorem *)
+Theorem C01_fold_rel_unfold : forall a x r v,
+  (fold_rel OAdd a [] v <-> v = a) /\ (fold_rel OMul a [] v <-> v = a) /\
+  (fold_rel OAdd a (x :: r) v <-> exists a' f, In ([a'], f) (m_add RNE a x) /\ fold_rel OAdd a' r v) /\
+  (fold_rel OMul a (x :: r) v <-> exists a' f, In ([a'], f) (m_mul RNE a x) /\ fold_rel OMul a' r v).
+Proof. exact fold_rel_unfold. Qed.
+Print Assumptions C01_fold_rel_unfold.
+
+Theorem C01_fold_ops_spec : forall o args accs v,
+  In v (fold_ops o accs args) <-> exists a, In a accs /\ fold_rel o a args v.
+Proof. exact fold_ops_spec. Qed.
+Print Assumptions C01_fold_ops_spec.
+
+Theorem C01_sum_spec : forall md l,
+  (exists vs, expected OSum md l = Exact (map (fun v => ([v; v], 0)) vs) /\
+              forall v, In v vs <-> fold_rel OAdd (encode (Fin false 0 0)) l v) /\
+  (forall outs fl, acc (expected OSum md l) outs fl = 1 <->
+                   fl = 0 /\ exists v, outs = [v; v] /\ fold_rel OAdd (encode (Fin false 0 0)) l v).
+Proof. exact sum_spec. Qed.
+Print Assumptions C01_sum_spec.
+
+Theorem C01_product_spec : forall md l,
+  (exists vs, expected OProduct md l = Exact (map (fun v => ([v; v], 0)) vs) /\
+              forall v, In v vs <-> fold_rel OMul (encode (Fin false 1 0)) l v) /\
+  (forall outs fl, acc (expected OProduct md l) outs fl = 1 <->
+                   fl = 0 /\ exists v, outs = [v; v] /\ fold_rel OMul (encode (Fin false 1 0)) l v).
+Proof. exact product_spec. Qed.
+Print Assumptions C01_product_spec.
+
+Theorem C01_sum_product_small : forall md x,
+  expected OSum md [] = Exact [([encode (Fin false 0 0); encode (Fin false 0 0)], 0)] /\
+  expected OProduct md [] = Exact [([encode (Fin false 1 0); encode (Fin false 1 0)], 0)] /\
+  (forall v, fold_rel OAdd (encode (Fin false 0 0)) [x] v <-> exists f, In ([v], f) (m_add RNE (encode (Fin false 0 0)) x)) /\
+  (forall v, fold_rel OMul (encode (Fin false 1 0)) [x] v <-> exists f, In ([v], f) (m_mul RNE (encode (Fin false 1 0)) x)).
+Proof. exact sum_product_small. Qed.
+Print Assumptions C01_sum_product_small.
+
+Theorem C01_sum_product_single : forall md l, Forall (fun x => is_nan (decode x) = false) l ->
+  (exists v, expected OSum md l = Exact [([v; v], 0)]) /\ (exists v, expected OProduct md l = Exact [([v; v], 0)]).
+Proof. exact sum_product_single. Qed.
+Print Assumptions C01_sum_product_single.
+
 (* non-vacuity: the design document's witness 1.000E-23 + -4.5E-57 under Downward is ...9995E-57, inexact *)
 Example C01_witness :
   m_add RDN (encode (Fin false 1000 (-26))) (encode (Fin true 45 (-58))) =
   [([encode (Fin false 9999999999999999999999999999999995 (-57))], F_INX)].
 Proof. vm_compute. reflexivity. Qed.
+
+(* overflow: MAX * 10 is +Inf under nearest-even, the largest finite number under toward-zero; -MAX * 10 under downward is
+   -Inf; -MAX + -MAX under upward is -MAX; always overflow + inexact (8 + 32) *)
+Definition ex_max := encode (Fin false MAXC qmax).
+Definition ex_nmax := encode (Fin true MAXC qmax).
+Example C01_ex_overflow :
+  m_mul RNE ex_max (encode (Fin false 10 0)) = [([encode (Inf false)], F_OVF + F_INX)] /\
+  m_mul RTZ ex_max (encode (Fin false 10 0)) = [([ex_max], F_OVF + F_INX)] /\
+  m_mul RDN ex_nmax (encode (Fin false 10 0)) = [([encode (Inf true)], F_OVF + F_INX)] /\
+  m_add RNE ex_max ex_max = [([encode (Inf false)], F_OVF + F_INX)] /\
+  m_add RUP ex_nmax ex_nmax = [([ex_nmax], F_OVF + F_INX)].
+Proof. vm_compute. repeat split; reflexivity. Qed.
+(* gradual underflow: 1234567E-6176 * 1E-3 rounds to 1235E-6176 with underflow + inexact (16 + 32); an exact subnormal
+   result raises nothing (1000E-6176 * 1E-3 = 1E-6176; 1E-6176 + 1E-6176 = 2E-6176); half the least subnormal rounds to
+   zero under nearest-even, 0.51 of it to 1E-6176; upward never rounds a positive tiny value to zero *)
+Example C01_ex_underflow :
+  m_mul RNE (encode (Fin false 1234567 (-6176))) (encode (Fin false 1 (-3))) = [([encode (Fin false 1235 (-6176))], F_UNF + F_INX)] /\
+  m_mul RNE (encode (Fin false 1000 (-6176))) (encode (Fin false 1 (-3))) = [([encode (Fin false 1 (-6176))], 0)] /\
+  m_add RNE (encode (Fin false 1 (-6176))) (encode (Fin false 1 (-6176))) = [([encode (Fin false 2 (-6176))], 0)] /\
+  m_mul RNE (encode (Fin false 1 (-6176))) (encode (Fin false 5 (-1))) = [([encode (Fin false 0 (-6176))], F_UNF + F_INX)] /\
+  m_mul RNE (encode (Fin false 1 (-6176))) (encode (Fin false 51 (-2))) = [([encode (Fin false 1 (-6176))], F_UNF + F_INX)] /\
+  m_mul RUP (encode (Fin false 1 (-6176))) (encode (Fin false 1 (-40))) = [([encode (Fin false 1 (-6176))], F_UNF + F_INX)].
+Proof. vm_compute. repeat split; reflexivity. Qed.
+(* clamping: 1E+6111 * 1E+10 has the preferred exponent 6121 > 6111: the coefficient is padded, 10000000000E+6111, exact, no
+   flag; zeros are clamped at both ends; 1E+6111 * 1E+34 no longer fits: overflow *)
+Example C01_ex_clamp :
+  m_mul RNE (encode (Fin false 1 6111)) (encode (Fin false 1 10)) = [([encode (Fin false 10000000000 6111)], 0)] /\
+  m_mul RNE (encode (Fin false 0 6111)) (encode (Fin false 1 10)) = [([encode (Fin false 0 6111)], 0)] /\
+  m_mul RNE (encode (Fin false 0 (-6176))) (encode (Fin false 1 (-10))) = [([encode (Fin false 0 (-6176))], 0)] /\
+  m_add RNE (encode (Fin false 1 6111)) (encode (Fin false 0 6111)) = [([encode (Fin false 1 6111)], 0)] /\
+  m_mul RNE (encode (Fin false 1 6111)) (encode (Fin false 1 34)) = [([encode (Inf false)], F_OVF + F_INX)].
+Proof. vm_compute. repeat split; reflexivity. Qed.
+
+(* operator forms: 2 / 3 under Downward is 0.666...6 (method form), but the operator a / b in a case that carries the mode
+   word Downward is judged against nearest-even, 0.666...7, five times, no flag *)
+Example C01_ex_operator :
+  expected ODiv RDN [encode (Fin false 2 0); encode (Fin false 3 0)] =
+    Exact [([encode (Fin false 6666666666666666666666666666666666 (-34))], F_INX)] /\
+  expected ODiv RNE [encode (Fin false 2 0); encode (Fin false 3 0)] =
+    Exact [([encode (Fin false 6666666666666666666666666666666667 (-34))], F_INX)] /\
+  expected (OOpArith ODiv) RDN [encode (Fin false 2 0); encode (Fin false 3 0)] =
+    Exact [(repeat (encode (Fin false 6666666666666666666666666666666667 (-34))) 5, 0)].
+Proof. vm_compute. repeat split; reflexivity. Qed.
+Example C01_ex_operator_hyps : binary_arith ODiv /\ exists l, expected ODiv RNE [encode (Fin false 2 0); encode (Fin false 3 0)] = Exact l.
+Proof. split; [right; right; right; reflexivity|eexists; reflexivity]. Qed.
+(* Sum [-0] = +0 (0 + -0 under nearest-even), whereas Product [-0] = -0 (1 * -0) *)
+Example C01_ex_sum_neg_zero :
+  expected OSum RNE [encode (Fin true 0 0)] = Exact [([encode (Fin false 0 0); encode (Fin false 0 0)], 0)] /\
+  expected OProduct RNE [encode (Fin true 0 0)] = Exact [([encode (Fin true 0 0); encode (Fin true 0 0)], 0)].
+Proof. vm_compute. split; reflexivity. Qed.
+(* sums are folded left to right with a rounding at every step: (1E+34 + 1) + -1E+34 = 0E+1 but 1 + (1E+34 + -1E+34) = 1:
+   Sum [1E+34; 1; -1E+34] = +0E+1, Sum [1E+34; -1E+34; 1] = 1 *)
+Example C01_ex_sum_order :
+  expected OSum RNE [encode (Fin false 1 34); encode (Fin false 1 0); encode (Fin true 1 34)] =
+    Exact [([encode (Fin false 0 1); encode (Fin false 0 1)], 0)] /\
+  expected OSum RNE [encode (Fin false 1 34); encode (Fin true 1 34); encode (Fin false 1 0)] =
+    Exact [([encode (Fin false 1 0); encode (Fin false 1 0)], 0)].
+Proof. vm_compute. split; reflexivity. Qed.
+(* two NaNs in a sum: either may be the propagated one; hypothesis of C01_sum_product_single is satisfiable by [1; 2] *)
+Example C01_ex_sum_two_nans :
+  expected OSum RNE [encode (NaN false false 1); encode (NaN false false 2)] =
+    Exact [([encode (NaN false false 1); encode (NaN false false 1)], 0); ([encode (NaN false false 2); encode (NaN false false 2)], 0)] /\
+  Forall (fun x => is_nan (decode x) = false) [encode (Fin false 1 0); encode (Fin false 2 0)].
+Proof. split; [vm_compute; reflexivity|repeat constructor]. Qed.
